@@ -333,7 +333,10 @@ type shardOut struct {
 	Exit        int                  `json:"exit"`
 }
 
-func Main(m *testing.M, property string) {
+func Main(m *testing.M, property string) { MainWith(m, property, nil) }
+
+// MainWith is Main with a clean-up function run before the process exits.
+func MainWith(m *testing.M, property string, cleanup func()) {
 	Install()
 	code := m.Run()
 	if out := os.Getenv("VERIF_EVID_OUT"); out != "" {
@@ -349,6 +352,9 @@ func Main(m *testing.M, property string) {
 		}
 		_ = os.WriteFile(out+".hashes", hb, 0o644)
 		col.mu.Unlock()
+	}
+	if cleanup != nil {
+		cleanup()
 	}
 	os.Exit(code)
 }
